@@ -523,3 +523,171 @@ pub fn stress(which: &str, sseed: u64, calls: u64) -> Report {
     rep.case = json!({"engine":"stress","workers":workers,"window":wt,"permitted":permitted,"wait_us":wait_us,"calls":per*tasks,"inner_calls":enters,"open_transitions":opens,"half_open_episodes":half_opens,"max_permitted_in_one_half_open_episode":max_ho});
     rep
 }
+
+// ---------------------------------------------------------------------------------------
+// Engine "stress-parked-call": a caller that holds a call future it is not polling.
+//
+// Any client may poll a call future once and then leave it alone for a while (a `select!` loop
+// running another branch's body, a future kept in a collection that is drained later). On an open
+// breaker every call is to be answered at once. OS threads, no runtime: a hammer thread has clones
+// of the open breaker reject calls in a tight loop; the main thread makes calls on its own clones,
+// and whenever the first poll of one returns Pending (the rejection has not been decided yet) it
+// parks that future un-polled and makes another call, polled continuously for a bounded time.
+// Verdict only from a causal witness: the second call stays unanswered while the parked future
+// exists and is answered once the parked future is dropped.
+pub fn parked_call(sseed: u64) -> Report {
+    use std::future::Future;
+    use std::sync::atomic::{AtomicBool, AtomicU64, Ordering::SeqCst};
+    use std::task::{Context, Poll, Wake, Waker};
+    use tower::Service;
+    struct Noop;
+    impl Wake for Noop {
+        fn wake(self: std::sync::Arc<Self>) {}
+    }
+    fn drive<F: Future + Unpin>(f: &mut F, cx: &mut Context<'_>, budget: Duration) -> Option<F::Output> {
+        let t0 = std::time::Instant::now();
+        loop {
+            for _ in 0..64 {
+                if let Poll::Ready(x) = std::pin::Pin::new(&mut *f).poll(cx) {
+                    return Some(x);
+                }
+                std::hint::spin_loop();
+            }
+            if t0.elapsed() > budget {
+                return None;
+            }
+            std::thread::yield_now();
+        }
+    }
+    let mut rng = Prng::new(sseed);
+    let mut rep = Report::default();
+    let fallback = rng.chance(0.4);
+    let slow_listener_us = if rng.chance(0.3) { rng.range(50, 400) } else { 0 };
+    let hammers = rng.range(1, 3) as usize;
+    let w = crate::world::World::new();
+    let layer = CircuitBreakerLayer::builder()
+        .failure_rate_threshold(0.5)
+        .sliding_window_size(4)
+        .wait_duration_in_open(Duration::from_secs(3600))
+        .on_call_rejected(move || {
+            if slow_listener_us > 0 {
+                let t = std::time::Instant::now();
+                while t.elapsed() < Duration::from_micros(slow_listener_us) {
+                    std::hint::spin_loop();
+                }
+            }
+        })
+        .build();
+    let cb = layer.layer(w.probe(1));
+    let waker = Waker::from(std::sync::Arc::new(Noop));
+    let mut cx = Context::from_waker(&waker);
+    {
+        let h = cb.clone();
+        let mut f = Box::pin(async move { h.force_open().await });
+        if drive(&mut f, &mut cx, Duration::from_secs(10)).is_none() {
+            rep.inconclusive = Some("force_open() did not complete".into());
+            return rep;
+        }
+    }
+    type CallFut = std::pin::Pin<Box<dyn Future<Output = bool> + Send>>;
+    // one call on a fresh clone; resolves to "answered with the open-circuit error / the fallback"
+    let mk: std::sync::Arc<dyn Fn(u64) -> CallFut + Send + Sync> = if fallback {
+        let svc = cb.clone().with_fallback(move |req: Req| -> BoxFuture<'static, Result<Resp, PErr>> { Box::pin(async move { Ok(Resp { serial: 0, req_id: req.id, payload: req.payload, src: 77 }) }) });
+        std::sync::Arc::new(move |id| {
+            let mut s = svc.clone();
+            let waker = Waker::from(std::sync::Arc::new(Noop));
+            let _ = s.poll_ready(&mut Context::from_waker(&waker));
+            let f = s.call(Req::new(id, 0, vec![Step { lat: Lat::Us(0), out: Out::Ok }]));
+            Box::pin(async move { matches!(f.await, Ok(r) if r.src == 77) })
+        })
+    } else {
+        let svc = cb.clone();
+        std::sync::Arc::new(move |id| {
+            let mut s = svc.clone();
+            let waker = Waker::from(std::sync::Arc::new(Noop));
+            let _ = s.poll_ready(&mut Context::from_waker(&waker));
+            let f = s.call(Req::new(id, 0, vec![Step { lat: Lat::Us(0), out: Out::Ok }]));
+            Box::pin(async move { f.await.is_err() })
+        })
+    };
+    let stop = std::sync::Arc::new(AtomicBool::new(false));
+    let hammered = std::sync::Arc::new(AtomicU64::new(0));
+    let mut hs = vec![];
+    for t in 0..hammers as u64 {
+        let (mk, stop, hammered) = (mk.clone(), stop.clone(), hammered.clone());
+        hs.push(std::thread::spawn(move || {
+            let waker = Waker::from(std::sync::Arc::new(Noop));
+            let mut cx = Context::from_waker(&waker);
+            let mut i = 0u64;
+            while !stop.load(SeqCst) {
+                i += 1;
+                let mut f = mk((t + 1) * 1_000_000_000 + i);
+                // bounded: if the breaker is wedged this thread must still come back
+                if drive(&mut f, &mut cx, Duration::from_millis(50)).is_some() {
+                    hammered.fetch_add(1, SeqCst);
+                }
+            }
+        }));
+    }
+    let t0 = std::time::Instant::now();
+    let mut first_polls = 0u64;
+    let mut pending_first_polls = 0u64;
+    let mut wrongly_answered = 0u64;
+    let mut id = 0u64;
+    while t0.elapsed() < Duration::from_millis(1500) && first_polls < 200_000 && rep.violations.is_empty() {
+        id += 1;
+        let mut f = mk(id);
+        first_polls += 1;
+        match f.as_mut().poll(&mut cx) {
+            Poll::Ready(ok) => {
+                if !ok {
+                    wrongly_answered += 1;
+                }
+            }
+            Poll::Pending => {
+                pending_first_polls += 1;
+                // park it; a second call must be answered all the same
+                id += 1;
+                let mut g = mk(id);
+                let while_parked = drive(&mut g, &mut cx, Duration::from_millis(300));
+                if while_parked.is_none() {
+                    let before = hammered.load(SeqCst);
+                    drop(f);
+                    let after_drop = drive(&mut g, &mut cx, Duration::from_secs(10));
+                    match after_drop {
+                        Some(_) => rep.violate(
+                            format!("C03:{}:open-breaker-stopped-answering", if fallback { "fallback" } else { "plain" }),
+                            format!(
+                                "open breaker (wait 3600 s{}): a caller polled one call future once and then left it un-polled; a second call on another clone was not answered within 300 ms of continuous polling and was answered as soon as the parked future was dropped ({} rejections by the {} hammer thread(s) before that)",
+                                if slow_listener_us > 0 { format!(", on_call_rejected listener taking {slow_listener_us} us") } else { String::new() },
+                                before,
+                                hammers
+                            ),
+                        ),
+                        None => rep.inconclusive = Some("a call on the open breaker stayed unanswered even after the parked future was dropped (stalled machine?)".into()),
+                    }
+                    break;
+                }
+            }
+        }
+    }
+    stop.store(true, SeqCst);
+    for h in hs {
+        let _ = h.join();
+    }
+    if wrongly_answered > 0 {
+        rep.violate("C03:parked-call:not-rejected", format!("{wrongly_answered} calls on the open breaker were not answered with the open-circuit error / the fallback"));
+    }
+    let inner = w.take_log().iter().filter(|r| matches!(r.ev, Ev::InnerEnter { .. })).count();
+    if inner > 0 {
+        rep.violate("C03:parked-call:inner-reached", format!("{inner} calls reached the wrapped service while the breaker was open"));
+    }
+    rep.count("first_polls_on_open_breaker", first_polls);
+    rep.count("first_polls_pending_under_contention", pending_first_polls);
+    rep.count("rejections_by_hammer_threads", hammered.load(SeqCst));
+    rep.bucket(format!("{} hammers={hammers}{}", if fallback { "fallback" } else { "plain" }, if slow_listener_us > 0 { " slow-listener" } else { "" }));
+    rep.nontrivial = first_polls >= 100 && hammered.load(SeqCst) >= 100;
+    rep.sig = crate::prng::mix(sseed, pending_first_polls.min(1));
+    rep.case = json!({"engine": "stress-parked-call", "fallback": fallback, "hammers": hammers, "slow_listener_us": slow_listener_us, "first_polls": first_polls, "pending_first_polls": pending_first_polls});
+    rep
+}
